@@ -313,6 +313,52 @@ func runC06(h *H) {
 		}
 		runtime.GOMAXPROCS(old)
 		if refCompute != nil && n <= 300 {
+			// the same logical local trust assembled differently - one constructor call, or a constructor call
+			// followed by merges of the remaining entries (later columns of every row; then a random remainder) -
+			// is the same input: same matrix, same bits out
+			for _, mode := range []string{"tail-columns", "random-split"} {
+				var first, rest, rest2 []sparse.CooEntry
+				zero := false
+				for i, row := range c.Entries {
+					cut := len(row)
+					if len(row) > 0 {
+						cut = g.intn(len(row) + 1)
+					}
+					for j, en := range row {
+						zero = zero || en.Value == 0
+						co := sparse.CooEntry{Row: i, Column: en.Index, Value: en.Value}
+						switch {
+						case mode == "tail-columns" && j >= cut:
+							rest = append(rest, co)
+						case mode == "random-split" && g.intn(3) == 0:
+							rest = append(rest, co)
+						case mode == "random-split" && g.intn(3) == 0:
+							rest2 = append(rest2, co)
+						default:
+							first = append(first, co)
+						}
+					}
+				}
+				if zero {
+					break
+				}
+				built := sparse.NewCSRMatrix(n, n, first, false)
+				for _, part := range [][]sparse.CooEntry{rest, rest2} {
+					if len(part) > 0 {
+						built.Merge(&sparse.NewCSRMatrix(n, n, part, false).CSMatrix)
+					}
+				}
+				g.count("built-by-merge:" + mode)
+				if !csmEqualBits(&built.CSMatrix, &c.CSMatrix) {
+					allSameC = false
+					g.count("built-by-merge-matrix-differs")
+					continue
+				}
+				if t, err := basic.Compute(context.Background(), built, p, a, e, basic.WithMaxIterations(200)); err != nil || !vecEqualBits(t, refCompute) {
+					allSameC = false
+					g.count("built-by-merge-scores-differ")
+				}
+			}
 			prevC, prevP, prevA, prevE, prevRef = cloneCSR(c), cloneVec(p), a, e, cloneVec(refCompute)
 		}
 		inputsSame := csmEqualBits(&c.CSMatrix, &cIn.CSMatrix) && csmEqualBits(&ct.CSMatrix, &ctIn.CSMatrix) &&
